@@ -166,16 +166,20 @@ def clauses(toks, ms):
         if s < prev_end:
             bad.append("overlap-or-order")
         prev_end = e
-    shadow_only = True
+    shadow_only, same_end = True, False
     missing = False
     for s in range(n):
         e, depth, amb = ref_run(toks, s)
         if e is not None and not any(a <= s < b for (a, b, _) in ms):
             missing = True
-            if not any(s < a and b <= e for (a, b, _) in ms):
+            if any(s < a and b < e for (a, b, _) in ms):
+                pass
+            elif any(s < a and b == e for (a, b, _) in ms):
+                same_end = True          # not the listed known finding (which needs the inner match to end EARLIER)
+            else:
                 shadow_only = False
     if missing:
-        bad.append("incomplete:inner-match-shadows-outer" if shadow_only else "incomplete:other")
+        bad.append("incomplete:other" if not shadow_only else "incomplete:later-start-with-the-same-end-wins" if same_end else "incomplete:inner-match-shadows-outer")
     return bad
 
 
